@@ -4,7 +4,7 @@ use crate::exec;
 use crate::framework::{Ctx, Spec};
 use crate::gen;
 use crate::model::*;
-use crate::mutate::{self, Alt};
+use crate::mutate;
 use crate::ops::{self, build_core, fail, CacheMode, Fail, Op, Sut};
 use crate::repl::{self, apply_proof, create_proof, Plan, Replica, Request};
 use crate::rng::Rng;
